@@ -3,6 +3,7 @@ From Coq Require Import List Arith Lia PeanoNat Bool ZArith.
 From TV Require Import Num.Ops Lin.BigSum Model.Cross Proofs.CrossIdx Proofs.CrossGeo Proofs.CrossP Proofs.Cross05P
   Proofs.Cross05PSim Proofs.Cross05PInterp.
 Import ListNotations.
+Local Open Scope nat_scope.
 
 (* ---------- a cached and an uncached run of the state machine over Z ---------- *)
 (* objective: an injective integer function of the multi-index; 3 modes (2, 3, 2), rank-1 start, two sweeps *)
@@ -33,32 +34,33 @@ Proof.
 Qed.
 
 (* ---------- the interpolation hypotheses on a rank-1 target over Z ---------- *)
-Definition AZ (r : row) : Z := ((Z.of_nat (nth 0 r 0) + 1) * (Z.of_nat (nth 1 r 0) + 1))%Z.
-Definition BZ (t s : nat) : Z := (Z.of_nat t + 1)%Z.
-Definition psZ : list (@posd Z) := [mkposd 2 [0] BZ [[0]]; mkposd 2 [0] BZ [[]]].
+Local Open Scope Z_scope.
+Definition AZ (r : row) : Z := (Z.of_nat (nth 0%nat r 0%nat) + 1) * (Z.of_nat (nth 1%nat r 0%nat) + 1).
+Definition BZ (t s : nat) : Z := Z.of_nat t + 1.
+Definition psZ : list (@posd Z) := [mkposd 2%nat [0%nat] BZ [[0%nat]]; mkposd 2%nat [0%nat] BZ [[]]].
 
 Lemma ex_steps_ok : steps_ok OZ AZ psZ [[]].
 Proof.
   cbn [steps_ok psZ p_n p_ind p_B p_cols map].
   split; [repeat constructor|].
   split.
-  { intros t c Ht Hc. cbn [length] in *. assert (c = 0) by lia. subst c.
-    assert (t = 0 \/ t = 1) as [->| ->] by lia; vm_compute; reflexivity. }
+  { intros t c Ht Hc. cbn [length] in *. assert (c = 0%nat) by lia. subst c.
+    assert (t = 0%nat \/ t = 1%nat) as [->| ->] by lia; vm_compute; reflexivity. }
   split.
-  { exists (fun c u => (Z.of_nat (nth 0 u 0) + 1)%Z). intros t u Ht Hu.
+  { exists (fun c u => Z.of_nat (nth 0%nat u 0%nat) + 1). intros t u Ht Hu.
     inversion Hu as [|j n' u' ns' Hj Hu']; subst. inversion Hu'; subst. cbn [length] in Ht.
-    assert (t = 0 \/ t = 1) as [->| ->] by lia; unfold AZ, cand, bsum; cbn; lia. }
+    assert (t = 0%nat \/ t = 1%nat) as [->| ->] by lia; unfold AZ, cand, bsum; cbn; lia. }
   split; [repeat constructor|].
   split.
-  { intros t c Ht Hc. cbn [length nextL map] in *. assert (c = 0) by lia. subst c.
-    assert (t = 0 \/ t = 1) as [->| ->] by lia; vm_compute; reflexivity. }
+  { intros t c Ht Hc. cbn [length nextL map] in *. assert (c = 0%nat) by lia. subst c.
+    assert (t = 0%nat \/ t = 1%nat) as [->| ->] by lia; vm_compute; reflexivity. }
   split; [|exact I].
   exists (fun c u => 1%Z). intros t u Ht Hu. inversion Hu; subst. cbn [length nextL map] in Ht.
-  assert (t = 0 \/ t = 1) as [->| ->] by lia; vm_compute; reflexivity.
+  assert (t = 0%nat \/ t = 1%nat) as [->| ->] by lia; vm_compute; reflexivity.
 Qed.
 
 Lemma ex_ltr_values :
   map (fun q => let (L', v') := runI OZ psZ [[]] (e0 OZ) q in
-                bsum OZ (length L') (fun a => (v' a * AZ (nth a L' []))%Z))
-      [[0; 0]; [1; 0]; [0; 1]; [1; 1]] = [1; 2; 2; 4]%Z.
+                bsum OZ (length L') (fun a => v' a * AZ (nth a L' [])))
+      [[0; 0]; [1; 0]; [0; 1]; [1; 1]]%nat = [1; 2; 2; 4].
 Proof. vm_compute. reflexivity. Qed.
